@@ -45,7 +45,9 @@ let of_wobs (w : M.wrapper_obs) =
   List [of_str w.M.wo_fn; of_list (of_opt of_str) w.M.wo_invokes; of_str w.M.wo_ret]
 
 let () =
-  (* (root (node ...)) -> (layout_ok kf_root kf_notutf8 analyze? wrappers? spec spec_files) *)
+  (* (root (node ...)) -> (layout_ok analyze? wrappers? spec spec_files); the two options are
+     always present since the repair of C03-2 (the model has no failing outcome), the shape is
+     kept so that an implementation failure is compared against "model did not fail" *)
   Registry.register "model" (fun s ->
     match list s with
     | [root; tree] ->
@@ -53,10 +55,8 @@ let () =
         let l = list_ node_ tree in
         let cmd4 (((n, p), r), a) = List [of_str n; of_str p; of_str r; of_bool a] in
         List [of_bool (M.c03_layout_ok l);
-              of_bool (M.c03_kf_root root);
-              of_bool (M.c03_kf_notutf8 root l);
-              of_opt (of_list cmd4) (M.c03_analyze root l);
-              of_opt of_pairs (M.c03_wrappers root l);
+              of_opt (of_list cmd4) (Some (M.c03_analyze root l));
+              of_opt of_pairs (Some (M.c03_wrappers root l));
               of_pairs (M.c03_spec l);
               of_list (of_list of_str) (M.c03_spec_files l)]
     | _ -> failwith "c03-model: bad case");
